@@ -245,6 +245,8 @@ class NativeCheck:
 
 def search(c: Contract, seed: int, tries: int, first_args=None, alphabet=None, max_len=None):
     """Bounded search for a real failing input of contract c.  Returns dict with counts and first failure."""
+    if getattr(c, "region", None) is not None:
+        return {"skipped": "region contract: a statement range cannot be called natively"}
     try:
         nc = NativeCheck(c)
     except Exception as e:
